@@ -147,6 +147,13 @@ fn settle_helper(w: &mut World, is: &Issued) {
 
 /// x = [command indices..., shutdown position, batching mask, window (0 none,1,2,3), extra call]
 fn run_case(cmds: &[Cmd], pos: usize, batch_mask: u64, window: u64, extra: Cmd, second_shutdown: bool, trace: bool) -> CaseResult {
+    run_case_pre(cmds, pos, batch_mask, window, extra, second_shutdown, false, trace)
+}
+
+/// `abandoned`: the pre-state also holds three browses of other types whose receivers the client
+/// dropped after SearchStarted without calling stop_browse.
+#[allow(clippy::too_many_arguments)]
+fn run_case_pre(cmds: &[Cmd], pos: usize, batch_mask: u64, window: u64, extra: Cmd, second_shutdown: bool, abandoned: bool, trace: bool) -> CaseResult {
     let mut res = CaseResult::default();
     let mut w = World::one(lay_v4());
     w.trace = trace;
@@ -162,6 +169,11 @@ fn run_case(cmds: &[Cmd], pos: usize, batch_mask: u64, window: u64, extra: Cmd, 
     let rx = w.ds[0].h.resolve_hostname("h1.local.", None).unwrap();
     let h0 = w.add_host(0, rx);
     w.poke(0);
+    if abandoned {
+        let rxs: Vec<_> = ["_ab1._udp.local.", "_ab2._udp.local.", "_ab3._udp.local.", "_ab4._udp.local.", "_ab5._udp.local."].iter().map(|t| w.ds[0].h.browse(t).unwrap()).collect();
+        w.poke(0);
+        drop(rxs);
+    }
     w.deliver(0, IF0, PEER0, build(&response(Inst::simple("inst", "h", [10, 0, 0, 9]).all(120))));
     w.advance(3000);
     w.ds[0].ctl.enable_exit_points(true);
@@ -426,14 +438,18 @@ pub fn check(tier: &str) -> i32 {
     // N = 1: every command x both positions x both batchings x (no window | 3 windows x 6 extra calls)
     let extras = [Cmd::Browse2, Cmd::Register2, Cmd::Status, Cmd::Unregister1, Cmd::GetMetrics, Cmd::GetIpInterval];
     let ne = extras.len() as u64;
-    let d1 = [nc, 2, 4, 1 + 4 * ne];
+    let d1 = [nc, 2, 4, 1 + 4 * ne + 1];
     let one = FnPart {
         name: "one-command-and-shutdown".into(),
-        rule: "every externally reachable command kind (16) with shutdown before or after it x every split of the two commands into loop iterations x (no further call | one further call of 6 kinds from a second handle clone in each of the 4 exit windows: after clean-up, after the queue was drained but before the receiver is dropped, after the command channel closed, after the thread ended)".into(),
+        rule: "every externally reachable command kind (16) with shutdown before or after it x every split of the two commands into loop iterations x (no further call | one further call of 6 kinds from a second handle clone in each of the 4 exit windows: after clean-up, after the queue was drained but before the receiver is dropped, after the command channel closed, after the thread ended | no further call but five browses of other types in the pre-state whose receivers the client dropped without stop_browse)".into(),
         n: product(&d1),
         describe: Box::new(move |i| { let x = unrank(i, &d1); format!("{:?} shutdown-pos {} batching {:#b} window/extra {}", CMDS[x[0] as usize], x[1], x[2], x[3]) }),
         run: Box::new(move |i, tr| {
             let x = unrank(i, &d1);
+            if x[3] == 1 + 4 * ne {
+                // no further call, but five abandoned browses in the pre-state
+                return run_case_pre(&[CMDS[x[0] as usize]], x[1] as usize, x[2], 0, Cmd::Status, false, true, tr);
+            }
             let (window, extra) = if x[3] == 0 { (0, Cmd::Status) } else { (1 + (x[3] - 1) / ne, extras[((x[3] - 1) % ne) as usize]) };
             run_case(&[CMDS[x[0] as usize]], x[1] as usize, x[2], window, extra, false, tr)
         }),
